@@ -24,7 +24,7 @@ from machines.memview import View, handlers as mem_handlers
 
 PID = "C12"
 RULE = (
-    "prog: all sequences of <= 3 ops (in x out over buffers {a,b: arguments, c: local allocation}, in != out; body output-only or accumulating), each op at top "
+    "prog: all sequences of <= 3 ops (in x out over buffers {a,b: arguments, c: local allocation}, incl. in-place in = out; body output-only or accumulating), each op at top "
     "level or inside one scf.for (trips 0,1,2), optional layout cast on one operand; const: all dense layouts of shapes (4,),(6,),(2,3),(4,4),(4,6),(2,2,2) with "
     "every 2-level factorisation and every stride order x {i8,i32}; transposes r,c <= 5. distinct = distinct (program/layout, observation); non-trivial = a "
     "cast had to be materialised / the layout permutes the data"
@@ -64,6 +64,8 @@ def prog_space(tier):
     # accumulating bodies (the body reads the output argument) only on the local L1 buffer c: for outputs that stand in for a cast the
     # compiler treats accelerator outputs as write-only (documented in RealizeMemrefCasts: accelerators overwrite their output), see DESIGN.md
     leaves = [("G", i, o, acc) for i in BUFS for o in BUFS if i != o for acc in (0, 1) if not (acc and o != "c")]
+    # in-place operations: the same buffer is an input operand and the output operand (x = x + x, read through the input)
+    leaves += [("G", x, x, 0) for x in BUFS]
     g = ST.Grammar(leaves, controls=("FOR",), max_depth=1)
     progs = []
     for p in g.programs(BOUNDS[tier]["ops"] + 1):
